@@ -69,6 +69,32 @@ def run(ctx):
             ctx.violation('gradient-value', 'nd_scipy.Gradient differs from the analytic gradient (extra argument c=3.0 forwarded?)', desc)
         if k < 2:
             ctx.sample({'n': n, 'm': m, 'method': method, 'J_shape': list(np.shape(J)), 'G_shape': list(np.shape(G))})
+    # a user-given step is RELATIVE to |x_j| (scipy's rel_step): coordinates with their own length scale s_j, x_j ~ s_j, f varying on that scale
+    for k in range(max(N // 5, 6)):
+        n = int(rng.integers(2, 5))
+        method = ['central', 'forward'][k % 2]
+        s = np.array([float(rng.choice([1e-4, 1.0, 1e3])) for _ in range(n)])
+        s[k % n] = 1e-4
+        u0 = rng.uniform(0.3, 1.2, size=n) * rng.choice([-1, 1], size=n)
+        x = s * u0
+        step = 1e-4 if method == 'central' else 1e-6
+
+        def fs(t, s=s):
+            return np.sin(t / s) + 0.5 * (t / s) ** 2
+        exact = np.diag((np.cos(u0) + u0) / s)
+        desc = {'n': n, 'method': method, 'x': x.tolist(), 'length_scales': s.tolist(), 'step': step, 'f': 'sin(x/s) + (x/s)**2/2 componentwise',
+                'how': 'nd_scipy.Jacobian(f, method=method, step=step)(x): the step is documented as relative (scipy rel_step), so each coordinate is perturbed by step*|x_j|'}
+        try:
+            J = nds.Jacobian(fs, method=method, step=step)(x)
+        except Exception as ex:   # noqa
+            ctx.violation('raises:%s' % method, 'nd_scipy.Jacobian(f, method=%r, step=%r)(x) raises %r' % (method, step, ex), desc)
+            continue
+        ctx.count(1, ('jac-length-scales', method))
+        colscale = np.max(np.abs(exact), axis=0)
+        if np.shape(J) != (n, n) or not np.all(np.abs(J - exact) <= 1e-3 * colscale[None, :]):
+            ctx.violation('jacobian-value:relative-step:%s' % method, 'nd_scipy.Jacobian(method=%r, step=%r) at coordinates with length scales %r: entries differ from the analytic Jacobian by %.3g relative to their column' % (
+                method, step, s.tolist(), float(np.max(np.abs(J - exact) / colscale[None, :])) if np.shape(J) == (n, n) else float('nan')), desc)
+            break
     # unknown method: an error, not a silent default
     for bad in ('multicomplex', 'centrall', ''):
         try:
